@@ -184,6 +184,12 @@ def check_hermitian(ctx):
     rets = [r for r in returned_exprs(ih.node) if isinstance(r, ast.Compare) and len(r.ops) == 1 and isinstance(r.ops[0], ast.Eq)]
     ok = len(rets) == 1 and {norm(rets[0].left), norm(rets[0].comparators[0])} == {q, f"hermitian_conjugated({q})"}
     ctx.check(ok, R2, ih.key + ":operator", "operator == hermitian_conjugated(operator)", "is_hermitian does not compare the operator with its own Hermitian conjugate", ih)
+    # every exit is a computed verdict: an exit answering with a literal True / False decides Hermiticity for a whole class of operands
+    # without looking at the coefficients (a constant operator with a non-real coefficient is not Hermitian)
+    from ..common import exit_exprs as _exits
+
+    lit = [e for e in _exits(ih.node) if isinstance(e, ast.Constant) and isinstance(e.value, bool)]
+    ctx.check(not lit, R2, ih.key + ":no-literal-verdict", "no exit of is_hermitian answers with a literal", f"is_hermitian has an exit that answers `{short(lit[0]) if lit else ''}` without comparing the operand with its conjugate: whatever class of operands the shortcut covers (constant operators, say) is declared Hermitian regardless of its coefficients -- 1j*I is not", f"{ih.module.relpath}:{lit[0].lineno}" if lit else ih)
     diffs = [s for s in body_walk(ih.node) if isinstance(s, ast.Assign) and norm(s.targets[0]) == "difference"]
     ok = bool(diffs) and all(norm(s.value) in (f"{q} - hermitian_conjugated({q})", f"hermitian_conjugated({q}) - {q}") for s in diffs)
     ctx.check(ok, R2, ih.key + ":matrix", "matrix branches measure operator - operator^dagger", "the matrix branches of is_hermitian do not measure the distance between the matrix and its conjugate transpose", ih)
